@@ -21,6 +21,12 @@ type ReplayTemplate struct {
 	TestName string            `json:"test_name"`
 	Probes   map[string]string `json:"probes"`
 	LdFlags  string            `json:"ldflags"`
+	// Domains: small value sets per probe; after the solver's candidate the harness tries their product
+	// (a bounded search for a failing input on the real code, guided by the failed obligation)
+	Domains map[string][]string `json:"domains"`
+	// ExtraFiles: further test files injected alongside (shared helpers); FixedValues: values passed as they are
+	ExtraFiles  []string          `json:"extra_files"`
+	FixedValues map[string]string `json:"fixed_values"`
 }
 
 func loadTemplates() map[string]*ReplayTemplate {
@@ -230,13 +236,25 @@ func normValue(v string) string {
 
 // runReplay executes the template test on the real package; returns (confirmed, log).
 func runReplay(t *ReplayTemplate, clause string, vals map[string]string, workDir string) (bool, string) {
-	in := map[string]interface{}{"clause": clause, "values": vals}
+	if vals == nil {
+		vals = map[string]string{}
+	}
+	for k, v := range t.FixedValues {
+		vals[k] = v
+	}
+	in := map[string]interface{}{"clause": clause, "values": vals, "domains": t.Domains}
 	b, _ := json.MarshalIndent(in, "", " ")
 	inFile := filepath.Join(workDir, "replay_input.json")
 	os.WriteFile(inFile, b, 0o644)
 	repo := repoDir()
 	target := filepath.Join(repo, t.Pkg, "zz_govc_replay_test.go")
-	ov := map[string]interface{}{"Replace": map[string]string{target: filepath.Join(verifDir, "replay_templates", t.TestFile)}}
+	repl := map[string]string{target: filepath.Join(verifDir, "replay_templates", t.TestFile)}
+	for i, f := range t.ExtraFiles {
+		if f != t.TestFile {
+			repl[filepath.Join(repo, t.Pkg, fmt.Sprintf("zz_govc_replay_%d_test.go", i))] = filepath.Join(verifDir, "replay_templates", f)
+		}
+	}
+	ov := map[string]interface{}{"Replace": repl}
 	ob, _ := json.Marshal(ov)
 	ovFile := filepath.Join(workDir, "overlay.json")
 	os.WriteFile(ovFile, ob, 0o644)
